@@ -17,10 +17,11 @@ def engine(kind):
     return {"euler": S.euler_engine, "gillespie": S.gillespie_engine, "tauleap": S.tauleap_engine}[kind]()
 
 
-def drive(script, kind, n_iter=None, explicit_samples=()):
+def drive(script, kind, n_iter=None, explicit_samples=(), eng=None):
     """setup; iterate (n_iter times, or run to completion); output; finalize.
-    -> (trajectory, iterations_done, complete)"""
-    eng = engine(kind)
+    -> (trajectory, iterations_done, complete).  eng: an engine object to (re)use instead of a new one."""
+    if eng is None:
+        eng = engine(kind)
     eng.setup(script)
     try:
         done = 0
